@@ -35,8 +35,14 @@ with an oracle that does not look at how pyglove builds the string:
 * the value is unchanged by rendering (structural snapshot incl. parents/paths,
   and pg.eq with a clone taken before).
 
+* building blocks -- the public methods of the view (render, content,
+  complex_value, summary, simple_value, object_key) are called directly and
+  from extension hooks that forward none / some / all of their options: the
+  same oracles hold when an option is left to the default of the method that
+  is called.
+
 Drivers: drv_positions, drv_option_pairs, drv_controls, drv_scoping,
-drv_leaf_identity.
+drv_leaf_identity, drv_building_blocks.
 """
 import html as _html
 import html.entities as _entities
@@ -301,6 +307,9 @@ class Plant:
     return repr(self.twin if twin else self.text)
 
 
+_KF_NO_STR_SUMMARY = '+enable_summary_for_str=False'
+
+
 def _verbatim(text, s):
   """`text` needs escaping (has `<` or a `&`) and still occurs as is in `s`."""
   return ('<' in text or re.search(r'&(?!amp;)', text) is not None) and text in s
@@ -376,6 +385,15 @@ ENTRIES = {
                         '.to_str(content_only={co})'),
     'view.complex_value': ('s = pg.views.HtmlTreeView().complex_value(v, parent=v, root_path=pg.KeyPath(){cview})'
                            '.to_str(content_only={co})'),
+    # the children of any container, handed over as the key -> value mapping
+    'view.complex_value[items]': (
+        'kv = (dict(v.sym_items()) if isinstance(v, pg.Symbolic) else dict(enumerate(v)) '
+        'if isinstance(v, (list, tuple)) else v)\n'
+        's = pg.views.HtmlTreeView().complex_value(kv, parent=v, root_path=pg.KeyPath(){cview})'
+        '.to_str(content_only={co})'),
+    'view.complex_value[parent=None]': (
+        's = pg.views.HtmlTreeView().complex_value(v, parent=None, root_path=pg.KeyPath(){cview})'
+        '.to_str(content_only={co})'),
 }
 _DIRECT = ('name', 'root_path')   # not view options: passed to the call itself
 
@@ -655,7 +673,10 @@ class Case:
           ok = has_token(tok_text, text)
         else:
           ok = text in vis_text
-        cid = '%s/present:%s' % (self.pgroup, suffix)
+        # one defect, one id: the key of a str child under an explicit
+        # enable_summary_for_str=False is tracked under the id of the option sweep.
+        cid = '%s/present:%s' % ('tree.options' if suffix.endswith(_KF_NO_STR_SUMMARY) else self.pgroup,
+                                 suffix)
         _record(rec, cid, (self.key, kind, text), ok,
                 '%s %r is not in the text of the document (outside tooltips)' % (kind, text),
                 W(_W_TOKEN % (tokens,) if kind == 'token' else
@@ -1069,14 +1090,19 @@ def expected_tree(v, kw):
           continue
       elif exclude is not None and root and k in exclude:
         continue
-      if isinstance(k, str):
+      is_int = isinstance(k, int) and not isinstance(k, bool)
+      if isinstance(k, str) or is_int:
+        # positions of a sequence / int keys of a dict are keys as well.
         if isinstance(x, (list, tuple)) or key_style == 'label':
           st = 'label'
         elif callable(key_style):
           st = key_style(None, c, x)
         else:
           st = 'summary'
-        suffix = 'key@%s-style' % st
+        if is_int:
+          suffix = 'index-key' if isinstance(x, (list, tuple)) else 'int-key'
+        else:
+          suffix = 'key@%s-style' % st
         if st == 'summary':
           if enable_summary is False:
             # summaries (the place of summary-style keys) are switched off
@@ -1085,11 +1111,8 @@ def expected_tree(v, kw):
             continue
           if (enable_summary is None and not summary_for_str
                 and isinstance(c.value if isinstance(c, pg.Ref) else c, str)):
-            suffix += '+enable_summary_for_str=False'
-        out.append(('key', k, suffix))
-      elif isinstance(k, int) and not isinstance(k, bool):
-        # positions of a sequence / int keys of a dict are keys as well.
-        out.append(('token', str(k), 'index-key' if isinstance(x, (list, tuple)) else 'int-key'))
+            suffix = 'key@summary-style' + _KF_NO_STR_SUMMARY
+        out.append(('token', str(k), suffix) if is_int else ('key', k, suffix))
       walk(c, False)
 
   walk(v, True)
@@ -1786,6 +1809,325 @@ def drv_leaf_identity(tier, seed):
   return rec.result()
 
 
+# ---------------------------------------------------------------------------
+# Driver 6: the building blocks of the tree view under their OWN defaults.
+#
+# HtmlTreeView.render / content / complex_value / summary / simple_value /
+# object_key are public methods: extension classes (and users) call them
+# directly and spell out only the options they care about.  An option that is
+# not spelled out takes the default of the very method that is called --
+# nothing above hands it down.  "Under any combination of view options"
+# includes the combinations in which an option is omitted, at every method that
+# takes it, and "every key and every leaf value of the rendered tree is
+# present" holds for the tree handed to the building block.
+#
+#  (a) direct calls: nothing spelled out / exactly one option spelled out /
+#      pairwise combinations in which "omitted" is one value of every option;
+#  (b) summary / simple_value / object_key with and without their options;
+#  (c) extension classes whose hooks call a building block and forward
+#      nothing, a fixed subset, the pass-through subset or all of the options
+#      they received, embedded at every kind of position.
+# ---------------------------------------------------------------------------
+
+_SLOT_RE = re.compile(r'@(V\d|K\d|N|T|X)@')
+_BENIGN = {'V0': 'valzero', 'V1': 'longval' + 'y' * 90, 'V2': 'valtwo', 'V3': 'valthree',
+           'V4': 'valfour', 'V5': 'valfive', 'V6': 'valsix', 'V7': 'valseven',
+           'V8': 'plainrepr', 'X': 'noteval', 'K0': 'keyzero', 'K1': 'keyone',
+           'K2': 'keytwo', 'N': 'rootname', 'T': 'roottitle'}
+
+
+class _Fill:
+  """Literals for the @V0@.. / @K0@.. / @N@ @T@ @X@ slots of a source template.
+
+  load 'benign': plain words; 'hot-values': payloads in the value slots (V*, X);
+  'hot-keys': payloads in the key / name / title slots.
+  """
+
+  def __init__(self, ri, load, key_pos='tree.key@summary-style', name_expect='text'):
+    self.plants = {}
+    hv, hk = load == 'hot-values', load == 'hot-keys'
+    spec = [('V%d' % i, 'tree.str-leaf' + ('.long' if i == 1 else ''), 'str', hv) for i in range(8)]
+    spec += [('V8', 'tree.repr-leaf', 'text', hv), ('X', 'tree.debug-info', 'none', hv)]
+    spec += [('K%d' % i, key_pos, 'text', hk) for i in range(3)]
+    spec += [('N', 'tree.name-option', name_expect, hk), ('T', 'tree.title-option', 'text', hk)]
+    for idx, (name, pos, expect, hot) in enumerate(spec):
+      if hot:
+        pool = KEY_SAFE if name[0] in 'KNT' else PAYLOAD_NAMES
+        self.plants[name] = Plant(pos, pool[(ri * 5 + idx * 3) % len(pool)], expect,
+                                  suffix=('y' * 90 if name == 'V1' else ''))
+
+  def lit(self, name, twin):
+    p = self.plants.get(name)
+    return p.src(twin) if p is not None else repr(_BENIGN[name])
+
+  def subst(self, src, twin):
+    return _SLOT_RE.sub(lambda m: self.lit(m.group(1), twin), src)
+
+  def used(self, *sources):
+    """The plants whose slot occurs in one of the sources."""
+    text = ' '.join(sources)
+    return [p for n, p in self.plants.items() if '@%s@' % n in text]
+
+
+BLOCK_ROOTS = {
+    'dict': "{@K0@: @V0@, 'klong': @V1@, 'kempty': '', 'num': 7919, 'flt': 3.25, 'flag': True, 'none': None, "
+            "'lst': [@V2@, 104729, {@K1@: @V3@}], 'obj': In(@V4@), 'ref': pg.Ref(In(@V5@, 6)), "
+            "'tup': (@V6@, 65537), 'plk': Pl(@V8@), 'e1': {}}",
+    'pg.Dict': "pg.Dict({@K0@: @V0@, 'klong': @V1@, 'kempty': '', 'num': 7919, 'flt': 3.25, 'flag': True, "
+               "'none': None, 'lst': [@V2@, 104729, {@K1@: @V3@}], 'obj': In(@V4@), 'ref': pg.Ref(In(@V5@, 6)), "
+               "'plk': Pl(@V8@), 'e2': []})",
+    'int-keyed dict': "{0: @V0@, 1: 7919, 5: [@V2@], 6: @V1@, 'kmixed': @V3@, 8: {@K0@: 3.25}}",
+    'list': "[@V0@, @V1@, 7919, {@K0@: @V2@, 'flt': 3.25}, In(@V4@), None, (@V6@, 65537), '', Pl(@V8@)]",
+    'pg.Object': "Ob(num=7919, lst=[@V2@, {@K1@: @V3@}], obj=In(@V4@, 8), none=None, flt=3.25, kempty='', "
+                 "**{@K0@: @V0@, 'klong': @V1@})",
+    'str': '@V0@',
+    'long-str': '@V1@',
+    'int': '7919',
+}
+_BLOCK_CONTAINERS = ['dict', 'pg.Dict', 'int-keyed dict', 'list', 'pg.Object']
+BLOCK_ENTRIES = {
+    'view.render': list(BLOCK_ROOTS),
+    'view.content': list(BLOCK_ROOTS),
+    'view.complex_value[items]': _BLOCK_CONTAINERS,
+    'view.complex_value[parent=None]': ['dict', 'pg.Dict', 'int-keyed dict'],
+}
+# Options every one of render / content / complex_value takes.  The callable
+# `uncollapse` is left to the option sweep (known finding, tracked there).
+_BLOCK_OPTION_NAMES = (
+    'name', 'css_classes', 'collapse_level', 'uncollapse', 'enable_summary', 'enable_summary_for_str',
+    'max_summary_len_for_str', 'enable_summary_tooltip', 'enable_key_tooltip', 'key_style', 'key_color',
+    'include_keys', 'exclude_keys', 'extra_flags', 'child_config', 'highlight', 'lowlight', 'debug')
+BLOCK_OPTIONS = [
+    (n, [x for x in vals if not (n == 'uncollapse' and x[0] == 'fn')]
+     + ([('True', 'True')] if n == 'enable_summary_for_str' else []))
+    for n, vals in SWEEP_OPTIONS if n in _BLOCK_OPTION_NAMES]
+
+_EXT_SIG = '(self, *, view, name=None, parent=None, root_path=None, **kwargs)'
+# hook -> (body with @F@ = the forwarded options, may it forward content-only options?)
+EXT_HOOKS = {
+    'content->complex_value': (
+        '  def _html_tree_view_content%s:\n'
+        '    return view.complex_value(dict(self.sym_items()), parent=self, '
+        'root_path=root_path or pg.KeyPath()@F@)\n' % _EXT_SIG, True),
+    'content->content': (
+        '  def _html_tree_view_content%s:\n'
+        '    return view.content(self, name=name, parent=parent, root_path=root_path@F@)\n' % _EXT_SIG, True),
+    'content->render-children': (
+        '  def _html_tree_view_content%s:\n'
+        "    return pg.Html.element('div', [view.render(c, name=k, parent=self, "
+        'root_path=pg.KeyPath(k, root_path)@F@) for k, c in self.sym_items()])\n' % _EXT_SIG, True),
+    'render->render': (
+        '  def _html_tree_view_render%s:\n'
+        '    return view.render(self, name=name, parent=parent, root_path=root_path@F@)\n' % _EXT_SIG, True),
+    'tree_view->render': (
+        '  def _html_tree_view%s:\n'
+        '    return view.render(self, name=name, parent=parent, root_path=root_path@F@)\n' % _EXT_SIG, True),
+    'summary->summary': (
+        '  def _html_tree_view_summary%s:\n'
+        '    return view.summary(self, name=name, parent=parent, root_path=root_path@F@)\n' % _EXT_SIG, False),
+}
+# forward -> (source appended to the call, the options it spells out, content options?)
+EXT_FORWARDS = {
+    'nothing': ('', {}, False),
+    'tooltips-off': (', enable_summary_tooltip=False, enable_key_tooltip=False', {}, False),
+    'summary-always': (', enable_summary=True', {'enable_summary': True}, False),
+    'label-keys': (", key_style='label'", {'key_style': 'label'}, True),
+    'expand-all': (', collapse_level=None', {}, True),
+    'long-str-limit': (', max_summary_len_for_str=200, enable_summary_for_str=True', {}, False),
+    'pass-through': (', **view.get_passthrough_kwargs(**kwargs)', {}, True),
+    'everything': (', **kwargs', {}, False),
+}
+EXT_VALUE = "Ex(@V0@, @V1@, 7919, [@V2@, 65537, {@K0@: @V3@}], In(@V4@), '')"
+EXT_EMBED = {
+    'root': '{E}',
+    'dict-value': "{{'ke7': {E}, 'kq7': 'after'}}",
+    'pg.Dict-value': "pg.Dict(ke7={E}, kq7='after')",
+    'list-item': "[{E}, 'after']",
+    'object-field': "Ob(kx7={E}, kq7='after')",
+    'ref': "pg.Dict(kr7=pg.Ref({E}))",
+}
+EXT_TOP_OPTIONS = [
+    ('default', []),
+    ('no-tooltips', NOTIP),
+    ('expand-all', [('collapse_level', 'None')]),
+    ('collapse-all', [('collapse_level', '0')]),
+    ('content-only', [('content_only', 'True')]),
+]
+
+
+def _ext_prelude(hook, forward):
+  return (PRE_SWEEP + 'class Ex(pg.Object, pg.views.HtmlTreeView.Extension):\n'
+          '  s: str\n  t: str\n  n: int\n  l: list\n  o: pg.typing.Any() = None\n  e: str = \'\'\n'
+          + EXT_HOOKS[hook][0].replace('@F@', EXT_FORWARDS[forward][0]))
+
+
+def drv_building_blocks(tier, seed):
+  Plant._counter[0] = 400000
+  quick = tier == 'quick'
+  n_random = 6 if quick else 600
+  rec = Recorder(
+      PROP, 'the public building blocks of the tree view (render / content / complex_value / summary / '
+            'simple_value / object_key) called directly, and from extension hooks that forward nothing / '
+            'a subset / the pass-through subset / all of their options: omitted options take the '
+            "building block's own defaults",
+      scope='(a) %d entry x root-kind combinations (%s over %s) with nothing spelled out x 3 payload loads; '
+            'every value of %d options spelled out alone (x 4 entries); pairwise covering array over '
+            'entry x root x options with "omitted" as a value + %d random rows; '
+            '(b) summary x 8 root kinds x 2 names x 10 option sets, simple_value x 14 leaves x 5 option sets, '
+            'object_key x 9 keys x 4 option sets; '
+            '(c) %d extension hooks x %d forwarding forms x %d embeddings (payload load and top-level '
+            'options rotate; quick: all of it for the hooks that forward nothing)'
+            % (sum(len(v) for v in BLOCK_ENTRIES.values()), ', '.join(BLOCK_ENTRIES), ', '.join(BLOCK_ROOTS),
+               len(BLOCK_OPTIONS), n_random, len(EXT_HOOKS), len(EXT_FORWARDS), len(EXT_EMBED)))
+  r = rng(seed, 'c20-blocks')
+  loads = ('benign', 'hot-values', 'hot-keys')
+  counter = [0]
+
+  def block_case(entry, root_label, chosen, load):
+    """chosen: [(option, label, source template)] -- the options spelled out."""
+    counter[0] += 1
+    ri = counter[0]
+    kind = entry.split('[')[0]
+    ks = dict((n, l) for n, l, _ in chosen).get('key_style', '-')
+    fill = _Fill(ri, load, key_pos='tree.key@%s-style' % ('label' if ks == 'label' else 'summary'),
+                 name_expect='text' if kind == 'view.render' else 'none')
+    raw_opts = [(n, src) for n, _, src in chosen]
+    used = fill.used(BLOCK_ROOTS[root_label], *[src for _, src in raw_opts])
+
+    def present(v, kw, kind=kind):
+      out = list(expected_tree(v, kw))
+      if kind == 'view.render' and 'name' in kw and kw.get('enable_summary') is not False:
+        # the name is the key of the root: it is shown in the summary.
+        sfx = 'name'
+        if (isinstance(v, str) and kw.get('enable_summary') is None
+            and not kw.get('enable_summary_for_str', True)):
+          sfx = 'key@summary-style' + _KF_NO_STR_SUMMARY
+        out.append(('text', kw['name'], sfx))
+      return out
+
+    label = tuple('%s=%s' % (n, l) for n, l, _ in chosen)
+    Case(rec, 'tree.blocks[%s]' % load, (entry, root_label, label, load), PRE_SWEEP,
+         lambda twin: fill.subst(BLOCK_ROOTS[root_label], twin), raw_opts, used,
+         entry=entry, present=present, kw_present=True, fmt=fill.subst,
+         pgroup='tree.blocks[%s]' % entry, minimize=True, reduce_on_raise=True,
+         twin=(load != 'benign' and (not quick or ri % 2 == 0))).run()
+
+  # (a1) nothing spelled out.
+  for entry, roots in BLOCK_ENTRIES.items():
+    for root_label in roots:
+      for load in loads:
+        if root_label == 'int' and load != 'benign':
+          continue
+        block_case(entry, root_label, [], load)
+  # (a2) one option spelled out, all the others omitted.
+  i = r.randrange(60)
+  for name, vals in BLOCK_OPTIONS:
+    for label, src in vals:
+      if src is None:
+        continue
+      for entry, roots in BLOCK_ENTRIES.items():
+        i += 1
+        rs = roots if not quick else [roots[i % len(roots)]]
+        for j, root_label in enumerate(rs):
+          for load in (loads if not quick else [loads[(i + j) % 3]]):
+            block_case(entry, root_label, [(name, label, src)], load)
+  # (a3) pairwise combinations; "omitted" is a value of every option.
+  params = [('entry', [(e, e) for e in BLOCK_ENTRIES]), ('root', [(k, k) for k in BLOCK_ROOTS])] + BLOCK_OPTIONS
+  rows = pairwise_rows(params, r, extra_random=n_random)
+  for ri, row in enumerate(rows):
+    choice = {name: vals[i] for (name, vals), i in zip(params, row)}
+    entry = choice['entry'][0]
+    roots = BLOCK_ENTRIES[entry]
+    root_label = choice['root'][0]
+    if root_label not in roots:
+      root_label = roots[list(BLOCK_ROOTS).index(root_label) % len(roots)]
+    chosen = [(n, choice[n][0], choice[n][1]) for n, _ in BLOCK_OPTIONS if choice[n][1] is not None]
+    for load in (loads if not quick else [loads[ri % 3]]):
+      block_case(entry, root_label, chosen, load)
+
+  # (b) summary: the name (the key of the value in its container) and the
+  # title are shown whatever else is or is not spelled out.
+  sum_sets = [
+      ('default', []), ('no-tooltips', NOTIP), ('enable_summary=None', [('enable_summary', 'None')]),
+      ('enable_summary=True', [('enable_summary', 'True')]),
+      ('enable_summary_for_str=True', [('enable_summary_for_str', 'True')]),
+      ('max_summary_len_for_str=0', [('max_summary_len_for_str', '0')]),
+      ('max_summary_len_for_str=200', [('max_summary_len_for_str', '200')]),
+      ('title', [('title', '@T@')]), ('css_classes', [('css_classes', "['cc']")]),
+      ('summary_color', [('summary_color', "('red', None)")]),
+  ]
+  n = 0
+  for root_label in BLOCK_ROOTS:
+    for load in ('benign', 'hot-keys'):
+      for oname, oset in sum_sets:
+        n += 1
+        if quick and load == 'hot-keys' and (n + seed) % 3:
+          continue
+        fill = _Fill(n, load)
+        opts = [('name', '@N@')] + oset
+        title = fill.plants['T'].text if 'T' in fill.plants else _BENIGN['T']
+        name = fill.plants['N'].text if 'N' in fill.plants else _BENIGN['N']
+        want = [('text', name, 'name')] + ([('text', title, 'title')] if oname == 'title' else [])
+        Case(rec, 'tree.blocks[view.summary]', (root_label, oname, load), PRE_SWEEP,
+             lambda twin, fill=fill, root_label=root_label: fill.subst(BLOCK_ROOTS[root_label], twin),
+             opts, fill.used(*[x for _, x in opts]), entry='view.summary', fmt=fill.subst,
+             present=lambda v, want=want: want, twin=not quick).run()
+
+  # (b) simple_value: the leaf itself.
+  leaves = ["'abc'", "''", "'y' * 79", "'y' * 80", "'y' * 81", '@V0@', '@V1@', '7919', '3.25', '-0.0', 'True',
+            'None', "b'ab'", 'Pl(@V8@)']
+  for li, leaf in enumerate(leaves):
+    for oname, oset in [('default', []), ('max_summary_len_for_str=0', [('max_summary_len_for_str', '0')]),
+                        ('max_summary_len_for_str=80', [('max_summary_len_for_str', '80')]),
+                        ('max_summary_len_for_str=200', [('max_summary_len_for_str', '200')]),
+                        ('css_classes+name', [('css_classes', "['cc']"), ('name', "'nm7'")])]:
+      fill = _Fill(li, 'hot-values')
+      Case(rec, 'tree.blocks[view.simple_value]', (leaf, oname), PRE_SWEEP,
+           lambda twin, fill=fill, leaf=leaf: fill.subst(leaf, twin), oset, fill.used(leaf),
+           entry='view.simple_value', present=lambda v: expected_tree(v, {}), twin=not quick).run()
+
+  # (b) object_key: the key itself.
+  for ki, key in enumerate(["'kplain'", '@K0@', '@K1@', '0', '12', "'a b'", "'0'", "'True'", "'k\u00e9'"]):
+    for oname, oset in [('default', []), ('no-tooltip', [('enable_key_tooltip', 'False')]),
+                        ('key_color', [('key_color', "('red', None)")]),
+                        ('css_classes', [('css_classes', "['cc']")])]:
+      fill = _Fill(ki, 'hot-keys', key_pos='tree.key@label-style')
+
+      def key_present(v):
+        if isinstance(v, int):
+          return [('token', str(v), 'index-key')]
+        return [('key', v, 'key@label-style')]
+
+      Case(rec, 'tree.blocks[view.object_key]', (key, oname), '',
+           lambda twin, fill=fill, key=key: fill.subst(key, twin), oset, fill.used(key),
+           entry='view.object_key', present=key_present, check_unmodified=False, twin=not quick).run()
+
+  # (c) extension hooks that call a building block themselves.
+  n = r.randrange(30)
+  for hook, (_, content_level) in EXT_HOOKS.items():
+    for forward, (_, spelled, needs_content) in EXT_FORWARDS.items():
+      if needs_content and not content_level:
+        continue
+      pre = _ext_prelude(hook, forward)
+      for embed, tmpl in EXT_EMBED.items():
+        n += 1
+        all_of_it = not quick or forward == 'nothing'
+        for li, load in enumerate(loads):
+          if not all_of_it and li != n % 3:
+            continue
+          tops = EXT_TOP_OPTIONS if not quick else [EXT_TOP_OPTIONS[(n + li) % len(EXT_TOP_OPTIONS)]]
+          for oname, oset in tops:
+            ks = 'label' if spelled.get('key_style') == 'label' else 'summary'
+            fill = _Fill(n + li, load, key_pos='tree.key@%s-style' % ks)
+            src = tmpl.format(E=EXT_VALUE)
+            Case(rec, 'tree.extension[%s]' % hook, (hook, forward, embed, load, oname), pre,
+                 lambda twin, fill=fill, src=src: fill.subst(src, twin), oset, fill.used(src),
+                 present=lambda v, spelled=spelled: expected_tree(v, spelled),
+                 pgroup='tree.extension[%s]' % hook,
+                 twin=(load != 'benign' and (not quick or n % 2 == 0))).run()
+  return rec.result()
+
+
 _W_TOKENS = ("t = html.unescape(re.sub(r'<[^>]*>', '\\x1f', "
              "re.sub(r'<span class=\"tooltip[^\"]*\"[^>]*>[^<]*</span>', '', s)))\n"
              "assert any(re.search(r'(?<![\\w.+\\-])' + re.escape(x) + r'(?![\\w.])', t) for x in %r), "
@@ -1807,7 +2149,8 @@ ts = [threading.Thread(target=work, args=(i,)) for i in (0, 1)]
 assert got == want
 '''
 
-DRIVERS = [drv_positions, drv_option_pairs, drv_controls, drv_scoping, drv_leaf_identity]
+DRIVERS = [drv_positions, drv_option_pairs, drv_controls, drv_scoping, drv_leaf_identity,
+           drv_building_blocks]
 
 
 def replay(rec):
